@@ -28,6 +28,16 @@ fn main() {
             continue;
         }
         match parts[0] {
+            // conf <hex utf8 of a whole configuration text> -> Debug print of the tree | ERR <message> | PANIC
+            "conf" => {
+                let text = String::from_utf8(unhex(parts[1])).unwrap();
+                let r = std::panic::catch_unwind(|| humphrey_server::config::tree::parse_conf(&text, "f"));
+                match r {
+                    Ok(Ok(node)) => println!("OK {:?}", node),
+                    Ok(Err(e)) => println!("ERR {}", format!("{:?}", e).replace('\n', " ")),
+                    Err(_) => println!("PANIC"),
+                }
+            }
             "sha1" => {
                 use humphrey_ws::verif::SHA1Hash;
                 let m = unhex(parts[1]);
